@@ -500,6 +500,15 @@ def gen_spec(rng, flavour="valid"):
                 return gen_spec(rng, flavour)
         for i, j in backbone_links(atoms):
             bonds[(i, j)] = 1 if rng.random() < 0.85 else rng.choice([2, 3, 8])
+        # near-miss backbone links: C->N / O3'->P between array-adjacent residues that the reader does NOT
+        # re-create (numbering gap, chain border, non-polymer partner) must be written to struct_conn
+        for r in range(len(st) - 2):
+            if rng.random() < 0.35:
+                n1, n2 = rng.choice([("C", "N"), ("O3'", "P")])
+                i = next((k for k in range(st[r], st[r + 1]) if atoms[k][5] == n1), None)
+                j = next((k for k in range(st[r + 1], st[r + 2]) if atoms[k][5] == n2), None)
+                if i is not None and j is not None and (i, j) not in bonds:
+                    bonds[(i, j)] = 1
         resof = [0] * n
         for r in range(len(st) - 1):
             for k in range(st[r], st[r + 1]):
